@@ -31,34 +31,34 @@ Theorem exits_reach_named_construct : forall cmi cmr, (forall t v, cmi t v = cmr
   forall fuel fn s stk path fr g,
   scoped (List.length stk) s = true -> one_default s = true -> clean_stmt (is_main fn) s = true ->
   shorter stk path ->
-  rrel stk (iexec cmi (funcs p) fuel fn s fr g) (rexec cmr (funcs p) fuel fn (resolve stk path s) fr g).
+  rrel stk (iexec cmi (funcs p) (closures p) fuel fn s fr g) (rexec cmr (funcs p) (closures p) fuel fn (resolve stk path s) fr g).
 Proof. exact exits_named_l. Qed.
 Print Assumptions exits_reach_named_construct.
 
 (* "fast-path integer nodes falling back": whenever a fused node's fast path fires it yields,
    for every operand kind held by the variables, what the node it replaced yields. *)
 (* VarFastAssign ($x = $y | $x = <int> | $x = a + b | $x = a * b) *)
-Theorem fast_assign_sound : forall cf funs fn x r fr g z,
+Theorem fast_assign_sound : forall cf funs clos fn x r fr g z,
   fast_assign fn r fr g = Some z ->
-  ieval cf funs fn r fr g = Res (EV (VInt z)) fr g /\
-  ieval cf funs fn (EAssign x r) fr g =
+  ieval cf funs clos fn r fr g = Res (EV (VInt z)) fr g /\
+  ieval cf funs clos fn (EAssign x r) fr g =
     (let '(fr', g') := wr fn x (VInt z) fr g in Res (EV (VInt z)) fr' g').
 Proof. exact fast_assign_sound_l. Qed.
 Print Assumptions fast_assign_sound.
 (* VarIntLe ($x <= <int>): the fast answer is the answer of the BinaryLe it wraps *)
-Theorem var_int_le_sound : forall cf funs fn a b fr g t,
+Theorem var_int_le_sound : forall cf funs clos fn a b fr g t,
   var_int_le fn a b fr g = Some t ->
-  islow funs fn cf Le a b fr g = Res (EV (VBool t)) fr g.
+  islow funs clos fn cf Le a b fr g = Res (EV (VBool t)) fr g.
 Proof. exact var_int_le_sound_l. Qed.
 Print Assumptions var_int_le_sound.
 (* VarStmtIncr (for-increments): same effect as evaluating the $x++ it replaced *)
-Theorem stmt_incr_sound : forall cf funs fn a fr g,
-  ieval_incs cf funs fn a fr g = ieval_each cf funs fn a fr g.
+Theorem stmt_incr_sound : forall cf funs clos fn a fr g,
+  ieval_incs cf funs clos fn a fr g = ieval_each cf funs clos fn a fr g.
 Proof. exact stmt_incr_sound_l. Qed.
 Print Assumptions stmt_incr_sound.
 (* BoolTest in ForStatement: same truth value as GetValue + AsBool *)
-Theorem bool_test_sound : forall cf funs fn c fr g,
-  icond_for cf funs fn c fr g = icond cf funs fn c fr g.
+Theorem bool_test_sound : forall cf funs clos fn c fr g,
+  icond_for cf funs clos fn c fr g = icond cf funs clos fn c fr g.
 Proof. exact bool_test_sound_l. Qed.
 Print Assumptions bool_test_sound.
 
@@ -66,27 +66,42 @@ Print Assumptions bool_test_sound.
    the caller's frame and hands the callee nothing but the argument VALUES and the global state
    ([cf f vs g1] has no frame argument); the caller's frame after the call is exactly what the
    argument evaluation left, whatever the callee did. *)
-Theorem call_leaves_caller_frame : forall cf funs fn f a fr g o fr' g',
-  ieval cf funs fn (ECall f a) fr g = Res o fr' g' ->
-  (exists x, ieval_args cf funs fn a fr g = Res (inr x) fr' g' /\ o = EX x) \/
+Theorem call_leaves_caller_frame : forall cf funs clos fn f a fr g o fr' g',
+  ieval cf funs clos fn (ECall f a) fr g = Res o fr' g' ->
+  (exists x, ieval_args cf funs clos fn a fr g = Res (inr x) fr' g' /\ o = EX x) \/
   (find_fun funs f = None /\ fr' = fr /\ g' = g) \/
-  (exists vs g1, ieval_args cf funs fn a fr g = Res (inl vs) fr' g1 /\ cf f vs g1 = Some (o, g')).
+  (exists vs g1, ieval_args cf funs clos fn a fr g = Res (inl vs) fr' g1 /\ cf (CFun f) vs g1 = Some (o, g')).
 Proof. exact call_frames_l. Qed.
 Print Assumptions call_leaves_caller_frame.
 (* ... and the call function the statement interpreter builds runs the body in a frame that
    contains the bound parameters and nothing else, and drops that frame afterwards *)
-Theorem callee_frame_is_fresh : forall cm funs n f vs g,
-  icallf cm funs n f vs g =
+Theorem callee_frame_is_fresh : forall cm funs clos n f vs g,
+  icallf cm funs clos n (CFun f) vs g =
   match find_fun funs f with
   | None => Some (EX (err "undefined function"), g)
   | Some d =>
-      match iexec cm funs n f (fbody d) (bind_params (fparams d) vs [], []) g with
+      match iexec cm funs clos n f (fbody d) (bind_params (fparams d) vs [], []) g with
       | Fuel => None
       | Res c _ g' => Some (call_result c, g')
       end
   end.
-Proof. exact (fun _ _ _ _ _ _ => eq_refl). Qed.
+Proof. exact (fun _ _ _ _ _ _ _ => eq_refl). Qed.
 Print Assumptions callee_frame_is_fresh.
+(* a closure call: a fresh frame holding the bound parameters and the values captured when the closure
+   object was CREATED ([cap] travels inside the closure value; see ieval on EClosure), static cells of
+   its own ([clo_name oid]); nothing of the caller's or of the defining function's current frame *)
+Theorem closure_frame_is_fresh : forall cm funs clos n id oid cap vs g,
+  icallf cm funs clos n (CClo id oid cap) vs g =
+  match nth_error clos id with
+  | None => Some (EX (VErr "no such closure"), g)
+  | Some cd =>
+      match iexec cm funs clos n (clo_name oid) (cbody cd) (bind_captured cap (bind_params (cparams cd) vs []), []) g with
+      | Fuel => None
+      | Res c _ g' => Some (call_result c, g')
+      end
+  end.
+Proof. exact (fun _ _ _ _ _ _ _ _ _ => eq_refl). Qed.
+Print Assumptions closure_frame_is_fresh.
 
 (* "each call gets a fresh slot vector indexed by parse-time variable index": the vector with the
    function's variable table simulates the name-indexed frame ImplSem uses.  PARTIAL: proved for the
